@@ -48,6 +48,8 @@ pub enum St {
     Def(usize, Vec<String>, E),
     Tron,
     Troff,
+    /// raw command text with `{}` placeholders for line-number operands (never executed by the model)
+    Cmd(&'static str, Vec<usize>),
 }
 
 /// A line: label id (resolved to a line number by `number`) and its statements.
@@ -450,11 +452,13 @@ pub struct Spell {
 pub struct Render<'a> {
     pub p: &'a Prog,
     rng: Option<Rng>,
+    /// write `THEN n` / `ELSE n` for a lone GOTO arm
+    pub then_short: bool,
 }
 
 impl<'a> Render<'a> {
     pub fn new(p: &'a Prog, spell: Spell) -> Render<'a> {
-        Render { p, rng: if spell.seed == 0 { None } else { Some(Rng::new(spell.seed)) } }
+        Render { p, rng: if spell.seed == 0 { None } else { Some(Rng::new(spell.seed)) }, then_short: false }
     }
 
     fn ch(&mut self, n: u64) -> u64 {
@@ -702,6 +706,20 @@ impl<'a> Render<'a> {
             }
             St::Tron => self.w("TRON"),
             St::Troff => self.w("TROFF"),
+            St::Cmd(f, ls) => {
+                let mut o = String::new();
+                let mut it = ls.iter();
+                let mut rest: &str = f;
+                while let Some(i) = rest.find("{}") {
+                    o.push_str(&rest[..i]);
+                    if let Some(l) = it.next() {
+                        o.push_str(&self.p.num(*l).to_string());
+                    }
+                    rest = &rest[i + 2..];
+                }
+                o.push_str(rest);
+                o
+            }
         }
     }
 
@@ -709,8 +727,8 @@ impl<'a> Render<'a> {
         // THEN n shorthand for a lone GOTO
         if v.len() == 1 {
             if let St::Goto(l) = &v[0] {
-                // `THEN n` for `THEN GOTO n` runs the same but (rightly) lists as typed; not used
-                if false {
+                // `THEN n` for `THEN GOTO n` runs the same but (rightly) lists as typed
+                if self.then_short {
                     return self.p.num(*l).to_string();
                 }
             }
@@ -1163,6 +1181,7 @@ impl<'a> M<'a> {
                 self.traced = Some(pos.line);
             }
             St::Troff => self.tron = false,
+            St::Cmd(..) => return Err(End::Unspec("command")),
         }
         Ok(Flow::Next)
     }
